@@ -464,3 +464,53 @@ def range_terms(src):
     out.append(f"def mi_call_args : List String := {q(call)}")
     out.append("")
     return out
+
+
+def nsi_betw_terms(src):
+    """round 5e: the statements by which `Network.nsi_betweenness` / `Network._nsi_betweenness`
+    (core/network.py) build the arguments of the kernel `_nsi_betweenness`, as texts, plus the bodies
+    of the two helpers they use (`Network.outdegree` without key, `nz_coords`).  The Lean model
+    `NsiCsr.nsiArgs` evaluates exactly these texts (anything else: "cannot evaluate")."""
+    rel = "core/network.py"
+    tree = ast.parse(open(os.path.join(src, rel)).read())
+    _, pub = find_method(src, rel, "Network", "nsi_betweenness")
+    _, wrk = find_method(src, rel, "Network", "_nsi_betweenness")
+    _, outd = find_method(src, rel, "Network", "outdegree")
+    nodoc = lambda body: [s for s in body if not (isinstance(s, ast.Expr) and  # noqa
+                                                  isinstance(s.value, ast.Constant))]
+    public = [ast.unparse(s) for s in nodoc(pub.body)]
+    worker = []
+    for s in nodoc(wrk.body):
+        worker.append(ast.unparse(s))
+        if isinstance(s, ast.Assign) and any(isinstance(t, ast.Name) and t.id == "worker"
+                                             for t in s.targets):
+            break
+    else:
+        raise Untranslatable("_nsi_betweenness: no `worker = partial(...)`")
+    od = None
+    for s in nodoc(outd.body):
+        if isinstance(s, ast.If) and ast.unparse(s.test) == "key is None" and \
+                len(s.body) == 1 and isinstance(s.body[0], ast.Return):
+            od = ast.unparse(s.body[0].value)
+    if od is None:
+        raise Untranslatable("Network.outdegree: no `if key is None: return ...`")
+    nz = None
+    for f in tree.body:
+        if isinstance(f, ast.FunctionDef) and f.name == "nz_coords":
+            b = nodoc(f.body)
+            if len(b) == 1 and isinstance(b[0], ast.Return):
+                nz = ast.unparse(b[0].value)
+    if nz is None:
+        raise Untranslatable("nz_coords: body is not a single return")
+    q = lambda l: "[" + ",\n   ".join('"' + x.replace("\\", "\\\\").replace('"', '\\"').replace("\n", "\\n")  # noqa
+                                      + '"' for x in l) + "]"
+    out = ["/-! ### construction of the CSR arguments of `_nsi_betweenness` (round 5e) -/",
+           "/-- statements of `Network.nsi_betweenness` -/",
+           f"def nsib_public : List String :=\n  {q(public)}",
+           "/-- statements of `Network._nsi_betweenness` up to `worker = partial(_nsi_betweenness, ...)` -/",
+           f"def nsib_worker : List String :=\n  {q(worker)}",
+           "/-- `Network.outdegree(key=None)` -/",
+           f"def nsib_outdegree : String := {q([od])[1:-1]}",
+           "/-- `nz_coords(matrix)` -/",
+           f"def nsib_nz_coords : String := {q([nz])[1:-1]}", ""]
+    return out
